@@ -540,3 +540,5 @@ _amend("C11", "level_text", "then attacked by ~15 corruption/transplant families
 _amend("C08", "level_text", "n = 1..4 producers, each running a real node;", "Failed-reorganisation unit: 3-5 producers, a main chain by one of them (nothing irreversible), a longer branch by the others that arrives children-first with an INVALID last block (the roll-forward moves the finality status along the branch and then fails), later completed by the valid block and extended: LIB on the own main chain after every delivery, and the completed branch adopted. Main unit: n = 1..4 producers, each running a real node;")
 
 _amend("C04", "level_text", "and no block with a forged tx is ever on the main chain.", "and no block with a forged tx is ever on the main chain. Block-path unit: on a chain where a name is registered and handed on 0-2 times, generated transactions under an address or under the name, signed by the right or a wrong key, are put to the block path's signature check with the pool answering 'known' or 'unknown': 'verified' only for the sender's key or the key of the name's owner in the node's state.")
+
+_amend("C06", "level_text", "Scenarios = generated block trees", "Scenarios (a third of the DPoS ones with the voting reward switched on and blocks biased towards stakes and votes, so that what the consensus derives in memory from executed transactions matters after a recovery) = generated block trees")
